@@ -163,7 +163,7 @@ pub fn run_c16(ctx: &Ctx) -> i32 {
 
     // 3. other positions: BFS from the start position, castling families
     let mut states = expected.len() as u64;
-    let r = bfs(ctx, "startpos", &[Pos::startpos()], if quick { 4 } else { 5 }, 20_000_000, |p, l, _| {
+    let r = bfs(ctx, "startpos", &[Pos::startpos()], if quick { 5 } else { 6 }, 150_000_000, |p, l, _| {
         check_offer_legal(ctx, &book, p, l, "reached by play from the start position");
         // a position that is not a book position (by identity) must get nothing
         if !expected.contains_key(&identity(p)) && offered(&book, p).is_some() {
@@ -184,7 +184,7 @@ pub fn run_c16(ctx: &Ctx) -> i32 {
         plies_total + ctx.get("lookups"),
         ctx.get("book_position_lookups") + ctx.get("lookups"),
         ctx.no_caps(),
-        "complete: every game of every file in /repo/book read by an independent PGN reader (games delimited by tag sections and result markers) and SAN reader (unique match required), first ten plies; for every position (identity: placement, side, rights, en-passant capture availability) the embedded book must return exactly the set of moves played there, also when a dead en-passant target is dropped; every castling-rights / side / en-passant variant of every book position, every position within depth 4 (thorough 5) of the start position and the castling / en-passant families: the book offers nothing or only legal moves, and nothing for positions that are not book positions",
+        "complete: every game of every file in /repo/book read by an independent PGN reader (games delimited by tag sections and result markers) and SAN reader (unique match required), first ten plies; for every position (identity: placement, side, rights, en-passant capture availability) the embedded book must return exactly the set of moves played there, also when a dead en-passant target is dropped; every castling-rights / side / en-passant variant of every book position, every position within depth 5 (thorough 6) of the start position and the castling / en-passant families: the book offers nothing or only legal moves, and nothing for positions that are not book positions",
         &["reference model (oracle crate): PGN reader, SAN reader, move generator"],
     )
 }
